@@ -16,11 +16,13 @@ pass=$(grep -E "^test result" "$S/suite.log" | sed -E 's/.* ([0-9]+) passed.*/\1
 fail=$(grep -E "^test result" "$S/suite.log" | sed -E 's/.* ([0-9]+) failed.*/\1/' | paste -sd+ | bc)
 comp=$(grep -c "^error\(\[E[0-9]*\]\)\?: could not compile\|^error\[E" "$S/suite.log")
 echo "suite_with_patch: passed=$pass failed=$fail compile_errors=$comp" >> "$OUT"
-cp "$S/demo.rs" tests/seed_demo.rs
-cargo test --offline --test seed_demo > "$S/demo_with.log" 2>&1; dw=$?
+# DEMO_DIR: where seed_demo.rs goes (default tests); DEMO_ARGS: extra cargo test arguments (package, features)
+DD="${DEMO_DIR:-tests}"
+cp "$S/demo.rs" "$DD/seed_demo.rs"
+cargo test --offline ${DEMO_ARGS:-} --test seed_demo > "$S/demo_with.log" 2>&1; dw=$?
 git checkout -q -- . 
-cargo test --offline --test seed_demo > "$S/demo_without.log" 2>&1; dwo=$?
-rm -f tests/seed_demo.rs
+cargo test --offline ${DEMO_ARGS:-} --test seed_demo > "$S/demo_without.log" 2>&1; dwo=$?
+rm -f "$DD/seed_demo.rs"
 echo "demo_with_patch_exit=$dw demo_without_patch_exit=$dwo" >> "$OUT"
 if [ "$fail" = "0" ] && [ "$comp" = "0" ] && [ "$dw" != "0" ] && [ "$dwo" = "0" ]; then echo "RESULT confirmed" >> "$OUT"; else echo "RESULT not_confirmed" >> "$OUT"; fi
 rm -f "$S/suite.log"
